@@ -723,6 +723,8 @@ register("C01",
                    lambda ur: [] if _planted(ur) else _pairs_plan(ur), {"C01"}, _planted,
                    n_quick=120, n_thorough=800, build=True, runit=False, extra=_planted_oracle({"unexported": "unexported:"})),
           _c01_spellings, _c01_internal,
+          # several small packages in one invocation with a header file: each gets its own output, the module builds
+          lambda rep, tier: __import__("vlib.c16tier", fromlist=["x"]).run_header_tiny(rep, tier),
           # unit tier: the real importableFrom (internal-package rule) and unvendor against the model
           stream_part("C01", lambda tier: [("paths", "paths", ["-seed", seed(), "-n", 4000 if tier == "quick" else 60000])],
                       nontrivial=lambda case, im: "importable" in case.get("raw", [""])[1:2] or "internal" in " ".join(case.get("raw", []))),
